@@ -53,6 +53,16 @@ CHECKS = {
              "fold of the updates (array equality by skolem index); exactly one STATQ per STATP, protocol-range sequence.",
         note="Bounded: <=2 (quick) / <=3 (thorough) messages of 0..3 changes, refresh <=3 bytes, pending list <=2.",
         ref="5/C05"),
+    "C11": dict(
+        text="Construction of the real GeckoAsyncFacade for all 895 shipped combinations (concrete, maximally wired block); "
+             "then, per representative of every facade-relevant table signature, the block is replaced by a fully symbolic "
+             "1024-byte array and every read-only member of the facade and its devices (65-130 members) is evaluated, one "
+             "member per exploration; enum values outside the label list must read 'Unknown'; watercare with a symbolic "
+             "mode byte or None; reminders with symbolic records; the error sensor with a sliding window of symbolic flags.",
+        note="Per-member exploration (members do not multiply); error flags 2 at a time; construction with symbolic "
+             "outputs is C12's part. Float formatting is an opaque stub. Known findings: 18 combinations (inXM log 2, "
+             "MrSteam, MAS-IBC-32K) cannot build a facade.",
+        ref="5/C11"),
     "C12": dict(
         text="Real GeckoAsyncFacade.__init__/_scan_outputs and the threaded GeckoFacade._on_connected/scan_outputs on blocks "
              "whose output-configuration items are symbolic over every label and out-of-range byte (one output of every "
